@@ -13,7 +13,9 @@ RULE = ("Hypothesis generates a scenario: 1-3 entries of any kind, the trash dir
         "options. A fault-free run under the os-level interposer records the N mutating operations "
         "(mkdir, open O_EXCL, write, close, rename, fopen, sendfile, chmod, utime, unlink, rmdir ...); "
         "then the world is rebuilt and trash-put is killed (os._exit, like SIGKILL) immediately "
-        "before mutating operation k, for EVERY k in 1..N. Oracle on each post-crash disk: every "
+        "before mutating operation k, for EVERY k in 1..N; and it is interrupted like Ctrl-C "
+        "(KeyboardInterrupt raised right before and right after operation k, so that finally / "
+        "except clauses run) for every k as well. Oracle on each post-crash disk: every "
         "entry is complete (deep-equal to its pre-snapshot) at its original place or complete "
         "under files/ of a trash dir - never missing from both, never partly in each; every node "
         "under any files/ has info/<name>.trashinfo present and parseable (Path and DeletionDate) "
@@ -24,7 +26,7 @@ ASSUMPTIONS = ["crash points are the boundaries between Python-level os.* operat
 
 
 def examples(tier):
-    return 700 if tier == "quick" else 20000
+    return 450 if tier == "quick" else 12000
 
 
 @st.composite
@@ -179,6 +181,25 @@ def run_case(case):
         out.keys.append([scen, op, min(k * 4 // max(n, 1), 3)])
         if out.fails:
             break
+    # Ctrl-C: Python turns SIGINT into KeyboardInterrupt at the next bytecode boundary, so - unlike
+    # SIGKILL - `finally` / `except BaseException` clauses of trash-put still run. Raised right
+    # before and right after every mutating operation.
+    if not out.fails:
+        for k in range(1, n + 1):
+            for when in ("before", "after"):
+                sandbox.build_world(spec)
+                r = runner.run(spec, "trash-put", opts + ["--"] + files, plan={"interrupt": [k, when]})
+                after = sandbox.snapshot()
+                op = muts[k - 1][2] if k - 1 < len(muts) else "?"
+                judge(out, before, after, files, dict(tags, op=op, kill="sigint"),
+                      "interrupted (SIGINT) %s op %d/%d (%s %s), exit %d" % (
+                          when, k, n, op, muts[k - 1][3][:1] if k - 1 < len(muts) else "", r.code))
+                out.classes.append("sigint_%s:%s" % (when, op))
+                out.keys.append([scen, "sigint_" + when, op, min(k * 4 // max(n, 1), 3)])
+                if out.fails:
+                    break
+            if out.fails:
+                break
     out.sample = {"scenario": scen, "argv": opts + files, "mutating_ops": n,
                   "ops": [[t[2], t[3][0] if t[3] else None] for t in muts][:40]}
     return out
